@@ -5,7 +5,9 @@ import SgModel.Lemmas.QuotaKeys
 
 Property theorems only (helpers in `Lemmas/Quota.lean`, `Lemmas/PersistMap.lean`).  The
 theorems quantify over **every number of threads, every program** (list of create / delete /
-update calls per thread), **every schedule** (list of thread indices, one micro-step each,
+update calls **and `recover` calls** per thread — `recover` writes the usage counters, so it
+is a thread program like the others: micro-steps lock, scan, count, in the order of the real
+hook points), **every schedule** (list of thread indices, one micro-step each,
 with the manager's write lock modelled) and every quota; nothing is bounded.  "Accepted"
 is what the tenant has persisted: with upserts an accepted creation need not add an entity,
 so the quota bounds the number of stored entities, which is what `ResourceQuotas` means.
@@ -16,7 +18,7 @@ open SgModel.Persist
 
 /-- **Quota.**  In every state reachable by any schedule the tenant holds at most
 `max_nodes` nodes and `max_edges` relationships. -/
-theorem C18_quota_never_exceeded (cfg : Cfg) (hreg : cfg.registered = true) (progs : List (List Op))
+theorem C18_quota_never_exceeded (cfg : Cfg) (hreg : cfg.registered = true) (progs : List (List Call))
     (sched : List Nat) :
     (∀ m, cfg.maxNodes = some m → (run fixed cfg (init progs) sched).shared.kv.nodes.length ≤ m)
     ∧ (∀ m, cfg.maxEdges = some m → (run fixed cfg (init progs) sched).shared.kv.edges.length ≤ m) :=
@@ -25,7 +27,7 @@ theorem C18_quota_never_exceeded (cfg : Cfg) (hreg : cfg.registered = true) (pro
 /-- **Usage = persisted.**  Whenever no thread is inside a call (in particular when all have
 finished) the usage counters equal the number of stored nodes / relationships. -/
 theorem C18_usage_eq_persisted_at_quiescence (cfg : Cfg) (hreg : cfg.registered = true)
-    (progs : List (List Op)) (sched : List Nat)
+    (progs : List (List Call)) (sched : List Nat)
     (hq : (run fixed cfg (init progs) sched).quiescent = true) :
     (run fixed cfg (init progs) sched).shared.usageN
         = (run fixed cfg (init progs) sched).shared.kv.nodes.length
@@ -43,11 +45,11 @@ theorem C18_usage_eq_persisted_at_quiescence (cfg : Cfg) (hreg : cfg.registered 
       exact this
     unfold Thread.idle at hidle
     rw [hpc] at hidle
-    cases pc <;> simp [MidOK] at hm hidle
+    cases op <;> cases pc <;> simp [MidOK] at hm hidle
 
 /-- … and while a thread is inside a call the counters are off by exactly the entity that
 call has written and not yet counted (`MidOK` at `count`), never by more: the invariant. -/
-theorem C18_invariant (cfg : Cfg) (hreg : cfg.registered = true) (progs : List (List Op))
+theorem C18_invariant (cfg : Cfg) (hreg : cfg.registered = true) (progs : List (List Call))
     (sched : List Nat) : Inv cfg (run fixed cfg (init progs) sched) :=
   run_inv cfg hreg sched _ (init_inv cfg progs)
 
@@ -67,6 +69,7 @@ theorem C18_refused_leaves_nothing (cfg : Cfg) (hreg : cfg.registered = true) (o
   | store => simp [micro_store] at h
   | count => simp [micro_count cfg hreg] at h
   | ret => simp [micro_ret] at h
+  | scan => simp [micro] at h
   | done => simp [micro] at h
 
 /-- the step before `check` changes nothing either -/
@@ -85,7 +88,7 @@ theorem C18_recover_idempotent_usage (cfg : Cfg) (hreg : cfg.registered = true) 
   · simp [recoverUsage, recover, hreg]
 
 /-- **No deadlock.**  As long as some thread has a call left, some thread can move. -/
-theorem C18_no_deadlock (cfg : Cfg) (hreg : cfg.registered = true) (progs : List (List Op))
+theorem C18_no_deadlock (cfg : Cfg) (hreg : cfg.registered = true) (progs : List (List Call))
     (sched : List Nat) (hnf : (run fixed cfg (init progs) sched).finished = false) :
     ∃ t, enabled fixed (run fixed cfg (init progs) sched) t = true := by
   have hinv := run_inv cfg hreg sched _ (init_inv cfg progs)
@@ -112,12 +115,12 @@ theorem C18_no_deadlock (cfg : Cfg) (hreg : cfg.registered = true) (progs : List
     refine ⟨i, ?_⟩
     unfold enabled
     simp only [hth, hprog]
-    cases pc <;> simp [MidOK, hpc] at hm ⊢
+    cases op <;> cases pc <;> simp [MidOK, hpc] at hm ⊢
 
 /-- The model satisfies the executable specification the harness evaluates on the real
 manager's observations: for every quota, programs, schedule and drain, once all threads
 have returned. -/
-theorem C18_model_refines_spec (cfg : Cfg) (progs : List (List Op)) (sched : List Nat) (fuel : Nat)
+theorem C18_model_refines_spec (cfg : Cfg) (progs : List (List Call)) (sched : List Nat) (fuel : Nat)
     (o : Obs)
     (hfin : (drain fixed cfg fuel (run fixed cfg (init progs) sched)).finished = true)
     (ho : obsOf fixed cfg (drain fixed cfg fuel (run fixed cfg (init progs) sched)) = some o) :
@@ -143,6 +146,8 @@ theorem C18_model_refines_spec (cfg : Cfg) (progs : List (List Op)) (sched : Lis
       rw [hprog th (List.mem_of_getElem? hth)] at hp
       simp at hp
   have hc := hinv.free hlock
+  have hseq := seq_call cfg hreg probeOp sys.shared hinv.wf hc hinv.within
+  have hpe := probe_edges cfg hreg sys.shared
   simp only [obsOf, recoverUsage, fixed_recover, recover, hreg, Bool.not_true, Bool.false_eq_true,
     if_false, Option.some.injEq] at ho
   subst ho
@@ -159,22 +164,32 @@ theorem C18_model_refines_spec (cfg : Cfg) (progs : List (List Op)) (sched : Lis
       have := hshape.2 i th hth
       rw [hprog th (List.mem_of_getElem? hth)] at this
       simp [this]
-  simp only [specQuota, Bool.and_eq_true, beq_iff_eq, List.length_map]
-  refine ⟨⟨⟨⟨⟨?_, ?_⟩, ?_⟩, ?_⟩, ?_⟩, hres⟩
-  · unfold within; cases hm : cfg.maxNodes with
+  have hwithin : ∀ (max : Option Nat) (n : Nat), (∀ m, max = some m → n ≤ m) → within max n = true := by
+    intro max n h
+    unfold within
+    cases hm : max with
     | none => rfl
-    | some m => simpa using hinv.within.1 m hm
-  · unfold within; cases hm : cfg.maxEdges with
-    | none => rfl
-    | some m => simpa using hinv.within.2 m hm
+    | some m => simpa using h m hm
+  simp only [specQuota, Bool.and_eq_true, beq_iff_eq, List.length_map, Bool.or_eq_true,
+    Bool.not_eq_true']
+  refine ⟨⟨⟨⟨⟨⟨⟨⟨?_, ?_⟩, ?_⟩, ?_⟩, ?_⟩, ?_⟩, ?_⟩, ?_⟩, hres⟩
+  · exact hwithin _ _ hinv.within.1
+  · exact hwithin _ _ hinv.within.2
   · rw [hc.1, hc.2]
-  · trivial
-  · trivial
+  · cases hen : cfg.enabled with
+    | false => exact Or.inl rfl
+    | true =>
+      refine Or.inr ?_
+      rw [hseq.2.2.2 rfl, quotaOf_probe cfg hreg hen sys.shared hc]
+  · exact hwithin _ _ hseq.2.2.1.1
+  · rw [hseq.2.1.1, hseq.2.1.2, hpe]
+  · rw [hpe]
+  · rw [hpe]
 
 /-- **Every stored node was accepted** (so a refused creation left nothing behind), in the
 form the harness evaluates on observations: once all threads have returned, every node id
 found in the store has a creation call that returned `Ok`. -/
-theorem C18_model_refines_spec_refused (cfg : Cfg) (progs : List (List Op)) (sched : List Nat)
+theorem C18_model_refines_spec_refused (cfg : Cfg) (progs : List (List Call)) (sched : List Nat)
     (fuel : Nat) (o : Obs)
     (hfin : (drain fixed cfg fuel (run fixed cfg (init progs) sched)).finished = true)
     (ho : obsOf fixed cfg (drain fixed cfg fuel (run fixed cfg (init progs) sched)) = some o) :
@@ -202,44 +217,65 @@ theorem C18_model_refines_spec_refused (cfg : Cfg) (progs : List (List Op)) (sch
 /-- #22 check-then-act: two writers, quota 1, both pass the check before either counts:
 two nodes are stored. -/
 theorem C18_counterexample_race :
-    (run legacy { maxNodes := some 1 } (init [[.createNode 1 [] []], [.createNode 2 [] []]])
+    (run legacy { maxNodes := some 1 } (init [[.op (.createNode 1 [] [])], [.op (.createNode 2 [] [])]])
         [0, 1, 0, 1, 0, 1, 0, 1, 0, 1]).shared.kv.nodes.length = 2
-    ∧ ((run legacy { maxNodes := some 1 } (init [[.createNode 1 [] []], [.createNode 2 [] []]])
+    ∧ ((run legacy { maxNodes := some 1 } (init [[.op (.createNode 1 [] [])], [.op (.createNode 2 [] [])]])
         [0, 1, 0, 1, 0, 1, 0, 1, 0, 1]).threads.map (fun th => th.done.map (·.2)))
         = [[.ok], [.ok]] := by decide
 
-/-- #23 `recover` adds the counts on every call: one node stored, usage 2 then 3. -/
+/-- #23 `recover` adds the counts on every call: one node stored (two after the probe
+creation, usage 2), usage 4 after `recover`, 6 after a second one. -/
 theorem C18_counterexample_recover_adds :
-    (obsOf legacy {} (run legacy {} (init [[.createNode 1 [] []]]) [0, 0, 0, 0, 0])).map
+    (obsOf legacy {} (run legacy {} (init [[.op (.createNode 1 [] [])]]) [0, 0, 0, 0, 0])).map
         (fun o => (o.nodes, o.usage0, o.usage1, o.usage2))
-      = some ([1], (1, 0), (2, 0), (3, 0)) := by decide
+      = some ([1], (1, 0), (4, 0), (6, 0)) := by decide
 
 /-- #24 writing an existing id again counts it again … -/
 theorem C18_counterexample_reput :
-    (obsOf legacy {} (run legacy {} (init [[.createNode 1 [] [], .createNode 1 [] []]])
+    (obsOf legacy {} (run legacy {} (init [[.op (.createNode 1 [] []), .op (.createNode 1 [] [])]])
         [0, 0, 0, 0, 0, 0, 0, 0, 0, 0])).map (fun o => (o.nodes, o.usage0))
       = some ([1], (2, 0)) := by decide
 
 /-- … and deleting an absent id discounts a stored one. -/
 theorem C18_counterexample_delete_absent :
-    (obsOf legacy {} (run legacy {} (init [[.createNode 1 [] [], .deleteNode 2]])
+    (obsOf legacy {} (run legacy {} (init [[.op (.createNode 1 [] []), .op (.deleteNode 2)]])
         [0, 0, 0, 0, 0, 0, 0, 0, 0])).map (fun o => (o.nodes, o.usage0))
       = some ([1], (0, 0)) := by decide
 
+/-- Why `recover` must scan **under** the write lock (a variant of the repaired code that
+scans first and locks only around `set_usage`; not the pinned tree): quota 2, thread 0
+persists node 1; thread 1 = `recover` scans (1 node); thread 2 creates node 2 (usage 2);
+`recover` resumes and sets the usage to 1; thread 3's creation is then accepted: 3 nodes. -/
+theorem C18_counterexample_recover_scan_outside_lock :
+    (run scanFirst { maxNodes := some 2 }
+        (init [[.op (.createNode 1 [] [])], [.recover], [.op (.createNode 2 [] [])], [.op (.createNode 3 [] [])]])
+        [0, 0, 0, 0, 0, 0, 1, 2, 2, 2, 2, 2, 2, 1, 1, 1, 3, 3, 3, 3, 3, 3]).shared.kv.nodes.length = 3 := by
+  decide
+
 /-! ### Non-vacuity: the same programs and schedules on the repaired model -/
+
+/-- the same programs and schedule on the repaired model: `recover` holds the lock from before
+its scan, the writer waits, the third creation is refused -/
+example :
+    ((run fixed { maxNodes := some 2 }
+        (init [[.op (.createNode 1 [] [])], [.recover], [.op (.createNode 2 [] [])], [.op (.createNode 3 [] [])]])
+        [0, 0, 0, 0, 0, 0, 1, 2, 2, 2, 2, 2, 2, 1, 1, 1, 2, 2, 2, 2, 2, 2, 3, 3, 3, 3, 3, 3]).threads.map
+          (fun th => th.done.map (·.2)))
+      = [[.ok], [.ok], [.ok], [.err .quota]] := by decide
+
 
 example : (obsOf fixed { maxNodes := some 1 }
       (drain fixed { maxNodes := some 1 } 50
-        (run fixed { maxNodes := some 1 } (init [[.createNode 1 [] []], [.createNode 2 [] []]])
+        (run fixed { maxNodes := some 1 } (init [[.op (.createNode 1 [] [])], [.op (.createNode 2 [] [])]])
           [0, 1, 0, 1, 0, 1, 0, 1, 0, 1]))).map (fun o => (o.results, o.nodes, o.usage0, o.usage2))
     = some ([[.ok], [.err .quota]], [1], (1, 0), (1, 0)) := by decide
 
 /-- thread 1 is refused the lock while thread 0 holds it: its schedule entries are no-ops -/
-example : (run fixed {} (init [[.createNode 1 [] []], [.createNode 2 [] []]]) [0, 1, 1, 1]).lock = some 0
-    ∧ ((run fixed {} (init [[.createNode 1 [] []], [.createNode 2 [] []]]) [0, 1, 1, 1]).threads.map
+example : (run fixed {} (init [[.op (.createNode 1 [] [])], [.op (.createNode 2 [] [])]]) [0, 1, 1, 1]).lock = some 0
+    ∧ ((run fixed {} (init [[.op (.createNode 1 [] [])], [.op (.createNode 2 [] [])]]) [0, 1, 1, 1]).threads.map
         (fun th => th.pc)) = [some .check, none] := by decide
 
-example : (obsOf fixed {} (run fixed {} (init [[.createNode 1 [] [], .createNode 1 [] [], .deleteNode 2]])
+example : (obsOf fixed {} (run fixed {} (init [[.op (.createNode 1 [] []), .op (.createNode 1 [] []), .op (.deleteNode 2)]])
       (List.replicate 18 0))).map (fun o => (o.results, o.nodes, o.usage0))
     = some ([[.ok, .ok, .ok]], [1], (1, 0)) := by decide
 
